@@ -26,7 +26,7 @@ import (
 func TestMain(m *testing.M) {
 	stats.Init("C14")
 	stats.Rule("dial scripts of 3-14 steps over {refuse, reject (closed in Attaching), drop after 0/5/120 ms, stay}, ReconnectTime r in {5,10,20,50 ms}, MaxReconnectTime in {0,r,2r,8r,40r}, DialAsynch in {true,false}, Close of dialer or socket at a drawn phase (between attempts, during a hanging attempt, while connected); dedicated reset scripts (>=10 refusals, lasting attach, drop); real-socket variant with the listener restarted 1-3 times. Non-trivial: >=2 faults in sequence; distinct by (script, r, max, asynch, close phase)")
-	stats.Assume("lower bounds (gap >= reconnect time / grown delay) are exact; upper bounds carry 250 ms slack and, like the back-off reset and no-attempt-after-Close checks, count only if they fail in 3 consecutive executions of the same case")
+	stats.Assume("lower bounds (gap >= reconnect time / grown delay) are exact; upper bounds carry 40 ms + 5 % slack and, like the back-off reset and no-attempt-after-Close checks, count only if they fail in 3 consecutive executions of the same case")
 	rc := m.Run()
 	stats.Flush()
 	fixture.Cleanup()
@@ -55,7 +55,10 @@ type verdict struct {
 	soft     bool // timing-sensitive: subject to the 3x rule
 }
 
-const slack = 250 * time.Millisecond
+// slackFor is the tolerance added to an upper bound on a gap: scheduling noise plus 5 %.  It is
+// deliberately small (a delay that overshoots the configured maximum by 10-50 % must be visible);
+// gaps that exceed it are "soft" violations, reported only when 3 executions in a row show them.
+func slackFor(upper time.Duration) time.Duration { return 40*time.Millisecond + upper/20 }
 
 // run executes the scenario once and returns the violations it saw.
 func run(sc scenario) (vs []verdict, harnessErr error) {
@@ -217,7 +220,7 @@ func run(sc scenario) (vs []verdict, harnessErr error) {
 			if gap < lower {
 				add(false, "gap-too-short", "attempt %d started %v after the previous attempt/connection ended; the delay must be at least %v (r=%v max=%v, %d consecutive refusals)", i, gap, lower, r, max, refusalsSinceAttach)
 			}
-			if gap > upper+slack {
+			if gap > upper+slackFor(upper) {
 				add(true, "gap-too-long", "attempt %d started %v after the previous one ended; expected at most %v (r=%v max=%v, %d consecutive refusals)", i, gap, upper, r, max, refusalsSinceAttach)
 			}
 			if resetCheck {
@@ -320,6 +323,21 @@ func genScenario(t *rapid.T) scenario {
 	sc.R = rapid.SampledFrom([]int{5, 10, 20, 50}).Draw(t, "r")
 	sc.Max = sc.R * rapid.SampledFrom([]int{0, 1, 2, 8, 40}).Draw(t, "maxMul")
 	sc.Asynch = rapid.Bool().Draw(t, "asynch")
+	if rapid.IntRange(0, 9).Draw(t, "capScript") == 0 {
+		// dedicated cap script: refusals until the delay has reached the maximum, then connections
+		// that are rejected before they attach (the delay neither grows nor shrinks), then success
+		sc.R = 50
+		sc.Max = 600
+		sc.Asynch = true
+		n := rapid.IntRange(11, 12).Draw(t, "nrefCap")
+		for i := 0; i < n; i++ {
+			sc.Steps = append(sc.Steps, step{Kind: "refuse"})
+		}
+		sc.Steps = append(sc.Steps, step{Kind: "reject"}, step{Kind: "reject"}, step{Kind: "stay"})
+		sc.CloseAt = len(sc.Steps)
+		sc.CloseWhat = rapid.SampledFrom([]string{"dialer", "socket"}).Draw(t, "closeWhat")
+		return sc
+	}
 	if rapid.IntRange(0, 5).Draw(t, "resetScript") == 0 {
 		// dedicated reset script
 		sc.R = 5
